@@ -2,6 +2,7 @@ package props
 
 import (
 	"fmt"
+	"regexp"
 	"strings"
 
 	"golang.org/x/mod/semver"
@@ -11,6 +12,8 @@ import (
 	"verif/engine/gen"
 	"verif/engine/ref"
 )
+
+var c08LongDigits = regexp.MustCompile(`[0-9]{19}`)
 
 func c08Lists(lvl int) []string {
 	I := []string{"0", "1", "2", "3", "10", "65535", "65536", "65537", "131072", "4294967296", "4294967297", "99999999999999999", "a", "alpha", "beta", "rc", "A", "Alpha", "a-b", "1-2", "2-3", "-5", "-", "x-", "0a", "00a", "1a", "x"}
@@ -99,6 +102,10 @@ func c08Spec(name string) *refSpec {
 		Valid: func(x string) bool {
 			_, _, ok := ref.SemverParts(x)
 			if !ok {
+				return false
+			}
+			// the property quantifies over digits-only identifiers of up to 18 digits
+			if i := strings.Index(x, "-"); i >= 0 && c08LongDigits.MatchString(strings.SplitN(x[i:], "+", 2)[0]) {
 				return false
 			}
 			if name == "golang" {
